@@ -110,6 +110,7 @@ def main():
     ap.add_argument('--needs', default='')
     ap.add_argument('--tier', default='quick')
     ap.add_argument('--no-confirm', action='store_true')
+    ap.add_argument('--confirm-only', action='store_true', help='only (re)do the confirmation and record it')
     ap.add_argument('--scratch', action='store_true', help='triage in a scratch worktree instead of /repo')
     a = ap.parse_args()
     src = os.path.abspath(a.src)
@@ -119,7 +120,7 @@ def main():
     if conf['confirmed'] is False:
         print('NOT CONFIRMED - not kept')
         return 1
-    res = (run_checks_scratch if a.scratch else run_checks)(src, checks, a.tier)
+    res = {} if a.confirm_only else (run_checks_scratch if a.scratch else run_checks)(src, checks, a.tier)
     for c, r in res.items():
         print(c, 'rc=%d' % r['rc'], '%.0fs' % r['wall'], '|', ' ; '.join(r['lines'][:4]))
         if r['rc'] == 2:
